@@ -915,11 +915,19 @@ func Scrap(w *load.World, c *core.Collector) {
 		if ro := readOnlyOf[g]; ro != nil {
 			for _, bb := range g.Blocks {
 				if ifi, ok := bb.Instrs[len(bb.Instrs)-1].(*ssa.If); ok {
-					if prm, isP := ifi.Cond.(*ssa.Parameter); isP && prm == ro && ssax.OnlyViaEdge(bb, 1, b) {
-						return true
+					// the flag itself, negated, or read back from the cell a capturing literal forces it into
+					cond, neg := ifi.Cond, false
+					if u, isN := cond.(*ssa.UnOp); isN && u.Op == token.NOT {
+						cond, neg = u.X, true
 					}
-					if u, isN := ifi.Cond.(*ssa.UnOp); isN && u.Op == token.NOT && u.X == ssa.Value(ro) && ssax.OnlyViaEdge(bb, 0, b) {
-						return true
+					if peelToParam(cond) == ssa.Value(ro) {
+						writeEdge := 1
+						if neg {
+							writeEdge = 0
+						}
+						if ssax.OnlyViaEdge(bb, writeEdge, b) {
+							return true
+						}
 					}
 				}
 			}
